@@ -12,7 +12,7 @@
              the serialised attribute lists of every class are regenerated (Gen/Serial.v). *)
 From Coq Require Import ZArith List Bool String.
 From ACN Require Import Base.Num Base.ResumeBase Gen.ResumeZ_Z Gen.Serial
-  Model.Resume Model.Registry Proofs.Resume Proofs.ResumeProg Proofs.Registry.
+  Model.Resume Model.ResumeHeap Model.Registry Proofs.Resume Proofs.ResumeProg Proofs.ResumeHeap Proofs.Registry.
 Import ListNotations.
 Open Scope Z_scope.
 
@@ -20,7 +20,90 @@ Open Scope Z_scope.
 (* (a) resume                                                                                 *)
 (* ------------------------------------------------------------------------------------------ *)
 
-(* FULL STATEMENT (refuted, see Props/C09_findings.v): the theorem below without `queue_ok s`.
+(* HEADLINE.  The event queue is the exact heapq-based EventQueue model of property C11
+   (Model/HeapQ.v, Model/Events.v: CPython heappush / heappop line by line, Python tuple
+   comparison of (timestamp, event) entries), `initial_sim` is the simulator as constructed
+   from a list of events, before the first run().
+
+   history_ok evs is a decidable condition on the initial events only:
+     every timestamp is >= 0;
+     every event is of a type whose processing sets _resolve (Plugin, Unplug, Recompute by
+       computation on the regenerated _process_event; not the untyped base class Event);
+     a session to be plugged in at `timestamp` leaves later: timestamp < ev.departure.
+
+   For every such history, every max_recompute, every rest of the simulator (network, EVs,
+   batteries, matrices ...) with arbitrary operations, every scheduler, every call index k:
+   if run() with a scheduler that raises at its (k+1)-th call leaves state sc and the
+   uninterrupted run() ends in sref, then run() again on sc ends in exactly sref. *)
+Theorem C09_resume :
+  forall (St Sched : Type) (R : rest_ops St Sched) (sched : sim HeapEQ St -> Sched)
+         (evs : list event) (mr : option Z) (rest : St) (fuel k : nat) (sc sref : sim HeapEQ St),
+    history_ok evs = true ->
+    run HeapEQ St Sched R sched fuel (Some k) (initial_sim St evs mr rest) = Raised sc ->
+    run HeapEQ St Sched R sched fuel None (initial_sim St evs mr rest) = Done sref ->
+    run HeapEQ St Sched R sched fuel None sc = Done sref.
+Proof. exact resume_from_history. Qed.
+Print Assumptions C09_resume.
+
+(* any number of interruptions, each followed by run() again *)
+Theorem C09_resume_repeatedly :
+  forall (St Sched : Type) (R : rest_ops St Sched) (sched : sim HeapEQ St -> Sched)
+         (evs : list event) (mr : option Z) (rest : St) (ks : list nat) (fuel : nat) (sref : sim HeapEQ St),
+    history_ok evs = true ->
+    run HeapEQ St Sched R sched fuel None (initial_sim St evs mr rest) = Done sref ->
+    run_chain HeapEQ St Sched R sched fuel ks (initial_sim St evs mr rest) = Done sref.
+Proof. exact resume_repeatedly_from_history. Qed.
+Print Assumptions C09_resume_repeatedly.
+
+(* dump at the interruption point, load, give the scheduler again, run (reload is built from the
+   regenerated serialised-attribute lists, see C09_reload_identity) *)
+Theorem C09_resume_after_load :
+  forall (St Sched : Type) (R : rest_ops St Sched) (sched : sim HeapEQ St -> Sched)
+         (evs : list event) (mr : option Z) (rest rest0 : St) (queue0 : hq) (fuel k : nat)
+         (sc sref : sim HeapEQ St),
+    history_ok evs = true ->
+    run HeapEQ St Sched R sched fuel (Some k) (initial_sim St evs mr rest) = Raised sc ->
+    run HeapEQ St Sched R sched fuel None (initial_sim St evs mr rest) = Done sref ->
+    run HeapEQ St Sched R sched fuel None (reload HeapEQ St rest0 queue0 sc) = Done sref.
+Proof. exact resume_after_load_from_history. Qed.
+Print Assumptions C09_resume_after_load.
+
+(* the same from ANY well-formed state of the heap queue (hq_inv: the array is a heap and every
+   entry is the entry of the event object it names) *)
+Theorem C09_resume_heap_partial :
+  forall (St Sched : Type) (R : rest_ops St Sched) (sched : sim HeapEQ St -> Sched)
+         (fuel k : nat) (s sc sref : sim HeapEQ St),
+    hq_inv (s_queue s) /\ queue_ok HeapEQ St s ->
+    run HeapEQ St Sched R sched fuel (Some k) s = Raised sc ->
+    run HeapEQ St Sched R sched fuel None s = Done sref ->
+    run HeapEQ St Sched R sched fuel None sc = Done sref.
+Proof. exact resume_heap. Qed.
+Print Assumptions C09_resume_heap_partial.
+
+(* the heapq-based EventQueue satisfies the queue laws (from C11's heap_root_min / heappush /
+   heappop / get_current_events theorems; the two array-equality laws are proved in
+   Proofs/ResumeHeap.v) *)
+Theorem C09_heap_queue_laws : queue_laws HeapEQ hq_inv.
+Proof. exact HeapEQ_laws. Qed.
+Print Assumptions C09_heap_queue_laws.
+
+(* history_ok is satisfiable, and it excludes the inputs of the two open findings *)
+Example C09_history_ok_example : history_ok ex_events = true.
+Proof. exact history_ok_example. Qed.
+Example C09_history_rejects_zero_stay_example : history_ok [plug 1 0 0 1; plug 0 1 1 4] = false.
+Proof. exact history_ok_rejects_zero_stay. Qed.
+Example C09_history_rejects_untyped_example :
+  history_ok [plug 0 0 0 2; mk_event "Event" 4 (-1) (-1) (-1)] = false.
+Proof. exact history_ok_rejects_untyped. Qed.
+Example C09_heap_resume_example :
+  drunE 10 None (init_simE ex_events (Some 2)) = Done (state_of exE_ref)
+  /\ drunE 10 (Some 2%nat) (init_simE ex_events (Some 2)) = Raised (state_of exE_crash)
+  /\ drunE 10 None (state_of exE_crash) = Done (state_of exE_ref)
+  /\ s_iter (state_of exE_ref) = 6.
+Proof. exact heap_resume_example. Qed.
+
+(* GENERAL FORM, for any queue implementation.
+   FULL STATEMENT (refuted, see Props/C09_findings.v): the theorem below without `queue_ok s`.
    `inv` is the representation invariant of the queue implementation (the heap invariant for
    EventQueue, `True` for the list queue).  queue_ok s says of every pending event e:  _iteration <= e.timestamp;  processing an event of
    e's type sets _resolve (true for Plugin / Unplug / Recompute, computed from the regenerated
